@@ -91,7 +91,7 @@ func c01GetAlphabet() *c01Alphabet {
 		urls := []string{"http://example.org/", "https://sub.example.org/ads?x=1", "http://x.com/banner", "http://EXAMPLE.ORG/ADS", "http://example.org/?u=example.org",
 			"http://x.test/" + a.wA + "/", "http://x.test/" + a.wB + "/", "http://example.org/-ads-/ad", "https://y.test/ad", "http://x.test/реклама-x?q", "http://example.org/\u212aelvin-ads-/\u0130/ad", "http://ads1.example.org/?u=http://ads2.example.org/", long, "http://example.example.org/-ads-/-ads-",
 			"http://" + strings.TrimSuffix(strings.TrimPrefix(a.tA, "||"), "^") + "/AB", "http://" + strings.TrimSuffix(strings.TrimPrefix(a.tB, "||"), "^") + "/x/ab"}
-		srcs := []string{"", "http://example.org/", "http://sub.example.org/", "https://www.google.co.uk/", "http://x.google.agoogle.com/", "http://" + a.hA + "/", "http://" + a.hB + "/", "http://x.com/", "http://user.github.io/", "http://a.co.uk/", "http://badexample.org/", "http://www.badexample.org/", "http://site0399.test/", "http://EXAMPLE.org/"}
+		srcs := []string{"", "http://example.org/", "http://sub.example.org/", "https://www.google.co.uk/", "http://x.google.agoogle.com/", "http://" + a.hA + "/", "http://" + a.hB + "/", "http://x.com/", "http://user.github.io/", "http://a.co.uk/", "http://badexample.org/", "http://www.badexample.org/", "http://site0399.test/", "http://EXAMPLE.org/", "http://l8.l7.l6.l5.l4.l3.l2.l1.example.org/"}
 		for _, u := range urls {
 			for _, s := range srcs {
 				for _, t := range []rules.RequestType{rules.TypeScript, rules.TypeDocument} {
@@ -111,6 +111,105 @@ func c01GetAlphabet() *c01Alphabet {
 		c01Alpha = a
 	})
 	return c01Alpha
+}
+
+// c01Size: 17, 33 and 65 rules that share one bucket of each table (one
+// shortcut, one $domain value, the sequential table), in one list and dealt out
+// over eight lists, against the linear scan.
+func c01Size(c *Ctx) (evals int64) {
+	ids := []int{1, 0, -1, 2, 7, math.MaxInt32, math.MinInt32, 100}
+	for _, n := range []int{17, 33, 65} {
+		var lines []string
+		for i := 0; i < n; i++ {
+			lines = append(lines,
+				fmt.Sprintf("/bucket-q$domain=d%02d.test|shared.test", i), // shortcuts table, one shortcut
+				fmt.Sprintf("/bk$domain=shared.test|d%02d.test", i),       // $domain table, bucket shared.test
+				fmt.Sprintf("/sq$ctag=t%02d", i),                          // sequential table
+				fmt.Sprintf("||bucket-h%02d.test^$important", i),
+				fmt.Sprintf("/this-shortcut-is-thirty-one-bytes$domain=d%02d.test|shared.test", i)) // a shortcut with 27 windows
+		}
+		for _, nLists := range []int{1, 8} {
+			texts := make([][]string, nLists)
+			for i, l := range lines {
+				texts[i%nLists] = append(texts[i%nLists], l)
+			}
+			var ls []filterlist.RuleList
+			var all []*rules.NetworkRule
+			for li, t := range texts {
+				ls = append(ls, &filterlist.StringRuleList{ID: ids[li], RulesText: joinLines(t) + "\n"})
+				for _, l := range t {
+					all = append(all, mustNetRule(l, ids[li]))
+				}
+			}
+			st, err := filterlist.NewRuleStorage(ls)
+			if err != nil {
+				panic(HarnessError(err.Error()))
+			}
+			ne := urlfilter.NewNetworkEngine(st)
+			var reqs []*rules.Request
+			for _, i := range []int{0, 1, n / 2, n - 2, n - 1} {
+				reqs = append(reqs, rules.NewRequest("http://x.test/bucket-q/bk/sq", fmt.Sprintf("http://d%02d.test/", i), rules.TypeScript),
+					rules.NewRequest(fmt.Sprintf("http://bucket-h%02d.test/sq", i), "", rules.TypeScript))
+				q := rules.NewRequestForHostname(fmt.Sprintf("bucket-h%02d.test", i))
+				q.SortedClientTags = []string{fmt.Sprintf("t%02d", i)}
+				reqs = append(reqs, q)
+			}
+			reqs = append(reqs, rules.NewRequest("http://x.test/this-shortcut-is-thirty-one-bytes/bk", "http://d01.test/", rules.TypeScript),
+				rules.NewRequest("http://x.test/this-shortcut-is-thirty-one-bytes/bk", fmt.Sprintf("http://l9.l8.l7.l6.l5.l4.l3.l2.l1.d%02d.test/", n-1), rules.TypeScript),
+				rules.NewRequest("http://x.test/this-shortcut-is-thirty-one-bytes", "http://shared.test/", rules.TypeScript))
+			reqs = append(reqs, rules.NewRequest("http://x.test/bucket-q/bk/sq", "http://shared.test/", rules.TypeScript), rules.NewRequest("http://x.test/bucket-q/bk/sq", "http://www.shared.test/", rules.TypeImage))
+			for _, q := range reqs {
+				evals++
+				var want []string
+				for _, r := range all {
+					if r.Match(q) {
+						want = append(want, r.RuleText)
+					}
+				}
+				g, w := sortedSet(netTexts(ne.MatchAll(q))), sortedSet(want)
+				if !eqStrings(g, w) {
+					lost, added := diffSets(w, g)
+					c.Run.Violate(ev.Violation{Pred: "matchall-equals-linear-scan", Sig: map[string]any{"size": n, "lists": nLists, "lost": clipList(lost), "added": clipList(added)},
+						What:   fmt.Sprintf("%d rules per bucket in %d list(s), request %s from %q: MatchAll returns %d rules, the linear scan %d; lost %v, added %v", n, nLists, q.URL, q.SourceURL, len(g), len(w), clipList(lost), clipList(added)),
+						Replay: map[string]any{"history": []int{}}})
+					return evals
+				}
+			}
+		}
+	}
+	// three hundred rules that share every window of one shortcut (a counter per
+	// window that saturates, a bucket that grows past any small bound); the last
+	// rule is the only exception
+	{
+		var lines []string
+		for i := 0; i < 300; i++ {
+			lines = append(lines, fmt.Sprintf("||a-bucket.test^$domain=f%03d.test", i))
+		}
+		lines = append(lines, "@@||a-bucket.test^", "||a-bucket.test^$important")
+		ne := urlfilter.NewNetworkEngine(stringStorage(joinLines(lines) + "\n"))
+		var all []*rules.NetworkRule
+		for _, l := range lines {
+			all = append(all, mustNetRule(l, 0))
+		}
+		for _, src := range []string{"", "http://f000.test/", "http://f255.test/", "http://f256.test/", "http://f299.test/"} {
+			q := rules.NewRequest("http://a-bucket.test/", src, rules.TypeScript)
+			evals++
+			var want []string
+			for _, r := range all {
+				if r.Match(q) {
+					want = append(want, r.RuleText)
+				}
+			}
+			if g, w := sortedSet(netTexts(ne.MatchAll(q))), sortedSet(want); !eqStrings(g, w) {
+				lost, added := diffSets(w, g)
+				c.Run.Violate(ev.Violation{Pred: "matchall-equals-linear-scan", Sig: map[string]any{"size": 302, "lost": clipList(lost), "added": clipList(added)},
+					What:   fmt.Sprintf("302 rules with one shortcut, request http://a-bucket.test/ from %q: MatchAll returns %v, the linear scan %v", src, g, w),
+					Replay: map[string]any{"history": []int{}}})
+				break
+			}
+		}
+	}
+	return evals
 }
 
 // c01LongRule returns "/ad$script,domain=site0000.test|...|site0399.test" (> 4 KiB).
@@ -324,6 +423,7 @@ func init() {
 		c.Run.Set("core_alphabet", int64(a.nCore+1))
 		c.Run.Set("core_depth_bound", int64(depth+1))
 		c.Run.Set("core_states_per_depth", s2.PerDepth)
+		c.Run.Set("size_layer_evaluations", c01Size(c))
 		c01Corpus(c)
 		c.Run.Sample(map[string]any{"history": []string{a.rules[0], a.rules[1], "<new list>", a.rules[0]}, "requests": len(a.requests)})
 		c.Run.Sample(map[string]any{"colliding_windows": []string{a.wA, a.wB}, "colliding_domains": []string{a.hA, a.hB}})
